@@ -4,12 +4,20 @@
 //
 //   {"op":"E","c":[[b0,b1,..],..]}  ->  {"op":"E","c":[[input, encode(input), decode(encode(input))],..]}
 //   {"op":"D","c":[[c0,c1,..],..]}  ->  {"op":"D","c":[[text, decode(text)],..]}
+//   (any further key of a script line, e.g. "bld", is ignored)
 //
 // Bytes/characters are written as their unsigned values 0..255.  Every argument string is a
 // heap-allocated std::string built from an exact-size heap copy of the input (so that a read
-// outside the argument is an AddressSanitizer report); the translation unit is compiled with
-// -fsanitize=address,bounds -fno-sanitize-recover=bounds, so an index outside the decode table
-// ends the process; the output then stops before that line (the runner treats it as a Crash event).
+// outside the argument is an AddressSanitizer report: arguments of 16 bytes and more live in an
+// exact-size heap block, shorter ones in the small-string buffer of the heap-allocated string
+// object, whose unused tail behind the terminator is poisoned by hand while the call runs); the
+// translation unit is compiled with -fsanitize=address,bounds -fno-sanitize-recover=bounds, so an
+// index outside the decode table ends the process; the output then stops before that line (the
+// runner treats it as a Crash event).
+//
+// Only the public interface is used, the way the upstream test uses it: the functions are called with
+// a std::string lvalue and the results are only iterated (no assumption on the exact return type).
+// A call that does not return is ended by a per-line CPU/wall-clock watchdog (Crash event).
 #include "vjson.hpp"
 #include "xtl/xbase64.hpp"
 
@@ -17,29 +25,103 @@
 #include <memory>
 #include <string>
 #include <vector>
+#include <sys/time.h>
 
-static std::string ints_of(const std::string& s)
+#if defined(__SANITIZE_ADDRESS__)
+#  define VERIF_ASAN 1
+#elif defined(__has_feature)
+#  if __has_feature(address_sanitizer)
+#    define VERIF_ASAN 1
+#  endif
+#endif
+#ifdef VERIF_ASAN
+#  include <sanitizer/asan_interface.h>
+#endif
+
+// ---- watchdog: a script line needs microseconds; 3 s of CPU time or 90 s of wall-clock time mean "does not return"
+static void on_watchdog(int sig)
+{
+    vj::crash_line(sig == SIGPROF ? "timeout: the call did not return within 3 s of CPU time" : "timeout: the call did not return within 90 s");
+    _exit(0);
+}
+static void arm_watchdog()
+{
+    struct itimerval cpu = {{0, 0}, {3, 0}}, wall = {{0, 0}, {90, 0}};
+    setitimer(ITIMER_PROF, &cpu, nullptr);
+    setitimer(ITIMER_REAL, &wall, nullptr);
+}
+
+template <class S> static std::string ints_of(const S& s)
 {
     std::string b = "[";
-    for (std::size_t i = 0; i < s.size(); ++i)
+    bool first = true;
+    for (auto ch : s)
     {
-        if (i) b += ',';
-        b += std::to_string((int)(unsigned char)s[i]);
+        if (!first) b += ',';
+        first = false;
+        b += std::to_string((int)(unsigned char)ch);
     }
     return b + "]";
 }
 
-static std::unique_ptr<std::string> make_arg(const vj::value& arr)
+template <class S> static std::string bytes_of(const S& s)
 {
-    std::size_t n = arr.a.size();
-    std::unique_ptr<char[]> raw(new char[n ? n : 1]);     // exact-size heap copy
-    for (std::size_t i = 0; i < n; ++i) raw[i] = (char)(unsigned char)arr.a[i].i;
-    return std::unique_ptr<std::string>(new std::string(raw.get(), n));
+    std::string b;
+    for (auto ch : s) b.push_back((char)ch);
+    return b;
+}
+
+// the argument of a call: a heap-allocated std::string with nothing readable behind its terminator
+struct arg_string
+{
+    std::unique_ptr<std::string> s;
+    const char* poisoned = nullptr;
+    std::size_t npoisoned = 0;
+
+    arg_string(const char* p, std::size_t n)
+    {
+        std::unique_ptr<char[]> raw(new char[n ? n : 1]);     // exact-size heap copy
+        for (std::size_t i = 0; i < n; ++i) raw[i] = p[i];
+        s.reset(new std::string(raw.get(), n));
+#ifdef VERIF_ASAN
+        // small-string buffer inside the object: poison what lies behind the terminator, up to the end of the object
+        const char* obj = reinterpret_cast<const char*>(s.get());
+        const char* d = s->data();
+        if (d >= obj && d < obj + sizeof(std::string))
+        {
+            const char* from = d + n + 1;
+            const char* to = obj + sizeof(std::string);
+            if (from < to && (reinterpret_cast<std::uintptr_t>(to) % 8) == 0)
+            {
+                poisoned = from;
+                npoisoned = std::size_t(to - from);
+                ASAN_POISON_MEMORY_REGION(poisoned, npoisoned);
+            }
+        }
+#endif
+    }
+    ~arg_string()
+    {
+#ifdef VERIF_ASAN
+        if (poisoned) ASAN_UNPOISON_MEMORY_REGION(poisoned, npoisoned);
+#endif
+    }
+    arg_string(const arg_string&) = delete;
+    arg_string& operator=(const arg_string&) = delete;
+};
+
+static std::string raw_of(const vj::value& arr)
+{
+    std::string r;
+    for (const vj::value& x : arr.a) r.push_back((char)(unsigned char)x.i);
+    return r;
 }
 
 int main()
 {
     vj::install_crash_handlers();
+    std::signal(SIGPROF, on_watchdog);
+    std::signal(SIGALRM, on_watchdog);
     std::string line;
     while (std::getline(std::cin, line))
     {
@@ -48,21 +130,24 @@ int main()
         const std::string& op = ev.str("op");
         std::string o = "{\"op\":\"" + op + "\",\"c\":[";
         bool first = true;
+        arm_watchdog();
         for (const vj::value& c : ev.at("c").a)
         {
             if (!first) o += ',';
             first = false;
-            std::unique_ptr<std::string> arg = make_arg(c);
+            std::string raw = raw_of(c);
+            arg_string arg(raw.data(), raw.size());
             if (op == "E")
             {
-                std::unique_ptr<std::string> enc(new std::string(xtl::base64encode(*arg)));
-                std::string dec = xtl::base64decode(*enc);
-                o += "[" + ints_of(*arg) + "," + ints_of(*enc) + "," + ints_of(dec) + "]";
+                std::string enc = bytes_of(xtl::base64encode(*arg.s));
+                arg_string earg(enc.data(), enc.size());
+                std::string dec = bytes_of(xtl::base64decode(*earg.s));
+                o += "[" + ints_of(*arg.s) + "," + ints_of(enc) + "," + ints_of(dec) + "]";
             }
             else if (op == "D")
             {
-                std::string dec = xtl::base64decode(*arg);
-                o += "[" + ints_of(*arg) + "," + ints_of(dec) + "]";
+                std::string dec = bytes_of(xtl::base64decode(*arg.s));
+                o += "[" + ints_of(*arg.s) + "," + ints_of(dec) + "]";
             }
             else
             {
@@ -74,5 +159,8 @@ int main()
         std::fputs(o.c_str(), stdout);
         std::fflush(stdout);
     }
+    struct itimerval off = {{0, 0}, {0, 0}};
+    setitimer(ITIMER_PROF, &off, nullptr);
+    setitimer(ITIMER_REAL, &off, nullptr);
     return 0;
 }
